@@ -596,6 +596,56 @@ func checkC16(tier string) {
 			}
 		}
 	}
+	// thorough: every byte value inserted at every token boundary of two small programs
+	if tier != "quick" {
+		c.phase("every byte value at every interesting offset of two small programs")
+		type job struct {
+			p   *Program
+			off int
+			b   byte
+		}
+		var jobs []job
+		small := []*Program{}
+		for _, p := range pools[0] {
+			src, _ := p.Disk.Get(p.Argv[len(p.Argv)-1])
+			if len(src) < 260 && len(small) < 2 {
+				small = append(small, p)
+			}
+		}
+		for _, p := range small {
+			src, _ := p.Disk.Get(p.Argv[len(p.Argv)-1])
+			seen := map[int]bool{}
+			for _, off := range interestingOffsets(src) {
+				if off < 0 || off > len(src) || seen[off] {
+					continue
+				}
+				seen[off] = true
+				for b := 0; b < 256; b++ {
+					jobs = append(jobs, job{p, off, byte(b)})
+				}
+			}
+		}
+		bouts := parallel(c, len(jobs), func(k int) outcome {
+			j := jobs[k]
+			sc := j.p.scenario("C16", c.Seed, 20_000_000+k)
+			path := sc.Argv[len(sc.Argv)-1]
+			f := sc.Disk.Files[path]
+			src, _ := base64.StdEncoding.DecodeString(f.B64)
+			d := Damage{Kind: "insert", Off: j.off, Text: string([]byte{j.b})}
+			f.B64 = base64.StdEncoding.EncodeToString(applyDamage(src, &d))
+			f.Damage = []Damage{d}
+			sc.TickBudget = budget
+			res := c.sim(c.B.FcVerif, sc)
+			return outcome{sc, c16Oracle(sc, res)}
+		}, nil)
+		exhaustive += len(bouts)
+		c.count("byte_sweep_runs", len(bouts))
+		for _, o := range bouts {
+			if o.v != nil {
+				bads = append(bads, bad{o.sc, o.v})
+			}
+		}
+	}
 	c.phase(fmt.Sprintf("shrinking and reporting (%d raw violations)", len(bads)))
 	sort.SliceStable(bads, func(i, j int) bool { return scenarioSize(bads[i].sc) < scenarioSize(bads[j].sc) })
 	seenSig := map[string]bool{}
